@@ -64,6 +64,7 @@ Print Assumptions C06_short_row.
 (** Only collect() narrows a line. *)
 Theorem C06_only_collect_narrows : forall line, limit_collection [] line = Some line.
 Proof. exact only_collect_narrows. Qed.
+Print Assumptions C06_only_collect_narrows.
 
 (** Non-vacuity: a hostile file meets the hypotheses and comes back. *)
 Example C06_nonvacuous :
